@@ -10,7 +10,7 @@
 From Coq Require Import ZArith List Bool.
 From DV Require Import Model.PyPrims Model.Tree Model.Heap Model.HeapOps Model.C15Prims Model.MutPrims Gen.Mutators
      Model.C03GenInst Proofs.C03GenPrims Proofs.C03GenNode Proofs.C03GenHeq Proofs.C03GenRemove Proofs.C03GenEdge
-     Proofs.C03GenTree Proofs.C03GenSu Proofs.C03GenReseed Proofs.C03GenPrune Proofs.C03GenMisc Proofs.C03GenPoly Proofs.C03GenEnc Proofs.C03GenOrder.
+     Proofs.C03GenTree Proofs.C03GenSu Proofs.C03GenReseed Proofs.C03GenPrune Proofs.C03GenMisc Proofs.C03GenPoly Proofs.C03GenEnc Proofs.C03GenOrder Proofs.C03GenResolve.
 From DV Require Import Model.C01GenPrims Gen.Bipartition Proofs.C03Base.
 Import ListNotations.
 Open Scope Z_scope.
@@ -187,11 +187,17 @@ Print Assumptions reseed_at_refines.
 (* ---- the prune family.  The `while True:` loops run on explicit fuel (HeapOps.v's loop uses
    fuel_of h); leaf_node_iter() / postorder_node_iter() are read at loop entry (for the leaf loops this
    is exact: the list is built completely before anything is removed).  Hypotheses: the generated fuel
-   is at least HeapOps.v's, and HeapOps.v itself does not give up (result <> HFuel). ---- *)
+   is at least HeapOps.v's, and HeapOps.v itself does not give up (result <> HFuel).
+   prune_leaves_without_taxa / prune_nodes / prune_taxa / retain_taxa are related to HeapOps.run_op_v for
+   the CURRENT source, v_now = {v_seed_guard := true; v_prune_nodes_tail := true} (Proofs/C03GenPrune.v):
+   HeapOps's function of the unrepaired source with AttributeError relabelled to OtherErr
+   (SeedNodeDeletionException when the node to remove is the seed) and, for
+   prune_nodes(prune_leaves_without_taxa=False), suppress_unifurcations / update_bipartitions appended. ---- *)
 Theorem prune_leaves_without_taxa_refines : forall (fuel : nat) (recursive ub su : bool) (h : heap),
   (fuel_of h <= fuel)%nat ->
-  prune_leaves_without_taxa recursive ub su h <> HFuel ->
-  to_hres (Tree_prune_leaves_without_taxa HG fuel recursive ub su h) = prune_leaves_without_taxa recursive ub su h.
+  run_op_v v_now (OPruneLeavesWithoutTaxa recursive ub su) h <> HFuel ->
+  to_hres (Tree_prune_leaves_without_taxa HG fuel recursive ub su h)
+  = run_op_v v_now (OPruneLeavesWithoutTaxa recursive ub su) h.
 Proof. exact gen_prune_leaves_without_taxa. Qed.
 Print Assumptions prune_leaves_without_taxa_refines.
 
@@ -206,25 +212,25 @@ Print Assumptions filter_leaf_nodes_refines.
 
 Theorem prune_nodes_refines : forall (fuel : nat) (nodes : list Z) (plwt ub su : bool) (h : heap),
   (forall h1, hfold (remove_from_parent OtherErr) nodes h = HOk h1 -> (fuel_of h1 <= fuel)%nat) ->
-  prune_nodes nodes plwt ub su h <> HFuel ->
-  to_hres (Tree_prune_nodes HG fuel nodes plwt ub su h) = prune_nodes nodes plwt ub su h.
+  run_op_v v_now (OPruneNodes nodes plwt ub su) h <> HFuel ->
+  to_hres (Tree_prune_nodes HG fuel nodes plwt ub su h) = run_op_v v_now (OPruneNodes nodes plwt ub su) h.
 Proof. exact gen_prune_nodes. Qed.
 Print Assumptions prune_nodes_refines.
 
 Theorem prune_taxa_refines : forall (fuel : nat) (taxa : list Z) (ub su ol oi : bool) (h : heap),
   (forall t h1, abs_at h (seed h) = Some t ->
-                hfold (prune_taxa_step taxa ol oi) (post_ids t) h = HOk h1 -> (fuel_of h1 <= fuel)%nat) ->
-  prune_taxa taxa ub su ol oi h <> HFuel ->
-  to_hres (Tree_prune_taxa HG fuel taxa ub su ol oi h) = prune_taxa taxa ub su ol oi h.
+                hfold (prune_taxa_step_e OtherErr taxa ol oi) (post_ids t) h = HOk h1 -> (fuel_of h1 <= fuel)%nat) ->
+  run_op_v v_now (OPruneTaxa taxa ub su ol oi) h <> HFuel ->
+  to_hres (Tree_prune_taxa HG fuel taxa ub su ol oi h) = run_op_v v_now (OPruneTaxa taxa ub su ol oi) h.
 Proof. exact gen_prune_taxa. Qed.
 Print Assumptions prune_taxa_refines.
 
 Theorem retain_taxa_refines : forall (fuel : nat) (namespace taxa : list Z) (ub su : bool) (h : heap),
   (forall t h1, abs_at h (seed h) = Some t ->
-                hfold (prune_taxa_step (filter (fun x => negb (memz x taxa)) namespace) true false) (post_ids t) h = HOk h1 ->
+                hfold (prune_taxa_step_e OtherErr (filter (fun x => negb (memz x taxa)) namespace) true false) (post_ids t) h = HOk h1 ->
                 (fuel_of h1 <= fuel)%nat) ->
-  retain_taxa namespace taxa ub su h <> HFuel ->
-  to_hres (Tree_retain_taxa HG fuel namespace taxa ub su h) = retain_taxa namespace taxa ub su h.
+  run_op_v v_now (ORetainTaxa namespace taxa ub su) h <> HFuel ->
+  to_hres (Tree_retain_taxa HG fuel namespace taxa ub su h) = run_op_v v_now (ORetainTaxa namespace taxa ub su) h.
 Proof. exact gen_retain_taxa. Qed.
 Print Assumptions retain_taxa_refines.
 
@@ -288,6 +294,23 @@ Theorem ladderize_refines : forall (asc : bool) (h : heap),
   WF h -> to_hres (Tree_ladderize HG asc h) = ladderize asc h.
 Proof. exact gen_ladderize_wf. Qed.
 Print Assumptions ladderize_refines.
+
+(* Tree.resolve_polytomies, both branches.  The scripted rng of the generated code is ONE list of draws
+   (flat_script: per polytomy the positions rng.sample returned, then one position per rng.choice);
+   HeapOps.v keeps them per polytomy.  rp_ok (Model/C03GenInst.v): the fuel of the generated `while` loops
+   suffices at every polytomy, the script holds one choice per sampled child, and no polytomy is the id
+   the next Node() receives (the source reads node._child_nodes[0] after `nn1 = Node()`, HeapOps before).
+   limit >= 1 (the default is 2): for limit < 1 a node with a single child makes `node._child_nodes[1]`
+   raise IndexError AFTER nn1 was constructed, HeapOps.resolve_det reports the heap from before *)
+Theorem resolve_polytomies_refines :
+  forall (fuel : nat) (limit : Z) (script : option (list (list nat * list nat))) (ub : bool) (h : heap),
+  1 <= limit ->
+  (forall t, abs_at h (seed h) = Some t ->
+             rp_ok fuel limit (filter (fun nd => limit <? len (kids h nd)) (post_ids t)) script h) ->
+  resolve_polytomies limit script ub h <> HFuel ->
+  to_hres (Tree_resolve_polytomies HG fuel limit ub (option_map flat_script script) h) = resolve_polytomies limit script ub h.
+Proof. exact gen_resolve_polytomies. Qed.
+Print Assumptions resolve_polytomies_refines.
 
 (* ---- encode_bipartitions.  In the theorems above it is the interface operation x_encode_bipartitions,
    instantiated with HeapOps.encode_structural.  On every well-formed heap (C03's invariant WFt h t: h
